@@ -166,6 +166,9 @@ def tr(node, env):
                 and isinstance(f.value.func, ast.Name) and f.value.func.id == 'bin'
                 and len(node.args) == 1 and isinstance(node.args[0], ast.Constant) and node.args[0].value == '1'):
             return 'int', f'(PyInt.popcount {as_int(f.value.args[0], env)})'
+        hook = getattr(env, 'call_hook', None)
+        if hook is not None:
+            return 'int', hook(node)
         raise Unsupported('call in expression: ' + ast.unparse(node), node)
     raise Unsupported(f'expression {type(node).__name__}: {ast.unparse(node)}', node)
 
@@ -453,8 +456,10 @@ class BodyTr:
 
     def env(self):
         names = {p: lname(p) for p in self.params if p not in self.table_params}
-        names.update({l: lname(l) for l in self.locals})
-        return Env(self.tables, names, self.table_params, regs=True, cfg_names=self.cfg_names)
+        names.update({l: lname(l) for l in self.locals if l not in getattr(self, 'list_locals', ())})
+        env = Env(self.tables, names, self.table_params, regs=True, cfg_names=self.cfg_names)
+        env.call_hook = lambda c: self.call_value(c, env)
+        return env
 
     def emit(self, ind, text):
         self.lines.append('  ' * ind + text)
@@ -470,6 +475,11 @@ class BodyTr:
                         if isinstance(e, ast.Name) and e.id not in assigned:
                             assigned.append(e.id)
         self.locals = [a for a in assigned if a not in self.params]
+        self.list_locals = set()
+        for n in ast.walk(func):
+            if isinstance(n, ast.Assign) and isinstance(n.value, ast.Call) and isinstance(n.value.func, ast.Name) \
+                    and n.value.func.id == 'io_contention' and isinstance(n.targets[0], ast.Name):
+                self.list_locals.add(n.targets[0].id)
         for n in ast.walk(func):
             if isinstance(n, ast.Subscript):
                 base, idx = subscript_chain(n)
@@ -532,7 +542,7 @@ class BodyTr:
         if isinstance(st, ast.Assign):
             if len(st.targets) != 1:
                 # a = b = <int expr>: evaluate once, assign left to right
-                if any(isinstance(t, ast.Tuple) or self.slice_range(t) for t in st.targets) or isinstance(st.value, ast.Call):
+                if any(isinstance(t, ast.Tuple) or self.slice_range(t) for t in st.targets):
                     raise Unsupported('chained assignment', st)
                 tmp = self.fresh('cv')
                 self.emit(ind, f'let {tmp} := {as_int(st.value, env)}')
@@ -652,6 +662,10 @@ class BodyTr:
             if len(c.args) != 2:
                 raise Unsupported('contend arity', c)
             return f'(contend cfg memv {as_int(c.args[0], env)} {self.timings(c.args[1], env)})'
+        if isinstance(c.func, ast.Name) and c.func.id == 'io_contention' and self.cmio:
+            if len(c.args) != 1:
+                raise Unsupported('io_contention arity', c)
+            return f'(io_contention cfg memv {as_int(c.args[0], env)})'
         raise Unsupported('call ' + ast.unparse(c)[:80], c)
 
     def timings(self, node, env):
@@ -726,7 +740,6 @@ def translate_handler(meth, tables, cmio=False):
     if func.args.args:
         raise Unsupported('closure with parameters', func)
     bt = BodyTr(tables, params, cfg_names, cmio)
-    bt.list_locals = set()
     bt.discover(func)
     for s in func.body:
         bt.stmt(s, 1)
@@ -741,7 +754,10 @@ def translate_handler(meth, tables, cmio=False):
     out.append('  let mut outs := s.outs')
     out.append('  let mut inLog := s.inLog')
     for l in bt.locals:
-        out.append(f'  let mut {lname(l)} : Int := 0')
+        if l in bt.list_locals:
+            out.append(f'  let mut {lname(l)} : List (Int × Int) := []')
+        else:
+            out.append(f'  let mut {lname(l)} : Int := 0')
     out.extend(bt.lines)
     out.append('  return { reg := regs, mem := memv, pc := rPC, t := rT, iff := rIFF, im := rIM, halt := rHALT, '
                'memptr := rMEMPTR, ins := ins, outs := outs, inLog := inLog }')
@@ -870,7 +886,7 @@ def gen_sim(repo, cmio=False):
            'import SkoolVerif.Prelude.Machine', 'import SkoolVerif.Prelude.Attrs', 'import SkoolVerif.Gen.SimTables']
     if cmio:
         out.append('import SkoolVerif.Model.Contend')
-    out += ['set_option linter.unusedVariables false', 'open Z80', f'namespace {ns}', '']
+    out += ['set_option linter.unusedVariables false', 'open Z80', 'open Contend' if cmio else '', f'namespace {ns}', '']
     for h in handlers.values():
         out.append(h.lean)
         out.append('')
@@ -947,4 +963,6 @@ if __name__ == '__main__':
     json.dump(meta, open(os.path.join(outdir, 'simtables.meta.json'), 'w'), indent=1)
     text, meta = gen_sim(repo)
     open(os.path.join(outdir, 'SimHandlers.lean'), 'w').write(text)
+    text, meta = gen_sim(repo, cmio=True)
+    open(os.path.join(outdir, 'CmioHandlers.lean'), 'w').write(text)
     print('generated')
